@@ -21,14 +21,15 @@ static struct node *g_lin_lr;          /* lin_old.left->right.ptr at the moment 
 static struct node *g_lin_rl;          /* lin_old.right->left.ptr at the moment of the step */
 static struct node *g_lin_nr, *g_lin_nl; /* lin_new.left->right.ptr / lin_new.right->left.ptr at the moment of the step */
 static T g_lin_ldata, g_lin_rdata;     /* payload of lin_old.left / lin_old.right at the moment of the step */
-static long g_steps;                   /* successful anchor CASes of this call (own + helping), saturating at 2 */
+static unsigned g_nsteps;              /* number of successful anchor CASes (own + helping); wraps, only differences are used */
 static struct pair g_step_old, g_step_new;   /* the last of them */
 static struct pair g_last_read;        /* last anchor value this call has read */
 static struct pair g_obs;              /* the anchor word this call last observed AND holds in a local (load / failed or successful CAS) */
 static struct node *g_inward_seen;     /* value this call last read from the inward link of the pushed end of g_obs */
 static bool g_validated;               /* anchor found equal to g_obs after the last node link load */
 static struct node *g_own;             /* node allocated by this call and not yet published (push) */
-static T g_own_data;
+static T g_own_data;                   /* shadow copies of the fields of g_own (written only by this call) */
+static struct node *g_own_ll, *g_own_lr;
 static long g_allocs, g_retired;
 static struct node *g_retired_node;
 static bool g_quiescent;               /* true: no other thread (bounded sequential unit only) */
@@ -144,7 +145,7 @@ static bool anchor_cas(struct deque *d, struct pair *expected, struct pair desir
   {
     struct pair o = g_q.anchor_;
     g_q.anchor_ = desired;
-    if (g_steps < 2) g_steps++;
+    g_nsteps = g_nsteps + 1u;
     g_step_old = o; g_step_new = desired;
     g_obs = desired;
     g_validated = false;
@@ -200,6 +201,7 @@ static void node_store(struct deque *d, struct tptr *f, struct tptr v)
 {
   VX_ASSERT(g_own != NULL && (f == &g_own->left || f == &g_own->right), "plain store only to a link of the caller's own, not yet published node");
   *f = v;
+  if (f == &g_own->left) g_own_ll = v.ptr; else g_own_lr = v.ptr;
 }
 /* std::atomic<tagged_ptr>::compare_exchange_strong on a node link */
 static bool node_cas(struct deque *d, struct tptr *f, struct tptr *expected, struct tptr desired)
@@ -231,7 +233,7 @@ static struct node *alloc_node(struct deque *d, struct node *lptr, struct node *
   n->left = mk_tptr(lptr, ltag);
   n->right = mk_tptr(rptr, rtag);
   n->data = v;
-  g_own = n; g_own_data = v;
+  g_own = n; g_own_data = v; g_own_ll = lptr; g_own_lr = rptr;
   if (g_allocs < 2) g_allocs++;
   return n;
 }
@@ -252,60 +254,51 @@ void dealloc_node(struct deque *self, struct node *n)
 
 /* `anchor_pair& lrs` of stabilize*, lowered: the reference is a pointer, the name stays */
 #define lrs (*lrs_ref)
-#define STAB_ASSIGNS g_q.anchor_, *lrs_ref, POOL_OBJECTS, lin, lin_old, lin_new, g_lin_lr, g_lin_rl, g_lin_nr, g_lin_nl, g_lin_ldata, g_lin_rdata, \
-                     g_steps, g_step_old, g_step_new, g_last_read, g_obs, g_inward_seen, g_validated, g_own
+#define STAB_ASSIGNS g_q.anchor_, *lrs_ref, POOL_OBJECTS, g_nsteps, g_step_old, g_step_new, g_last_read, g_obs, g_inward_seen, g_validated
+/* precondition shared by the three: lrs is a word this thread read from (or installed in) the anchor and still holds as
+ * its last observation; a node the caller has allocated but not published is private */
+#define STAB_PRE (self == &g_q && S_OK(g_q.anchor_) && A_OK(*lrs_ref) && PEQ(*lrs_ref, g_obs) && \
+                  (g_own == NULL || (INPOOL(g_own) && NOREF(g_q.anchor_, g_own))) && OWN_INTACT)
+/* nobody but the caller writes the caller's unpublished node: its fields equal the caller's shadow copies */
+#define OWN_INTACT (g_own == NULL || (LNK_L(g_own) == g_own_ll && LNK_R(g_own) == g_own_lr && DATA_OF(g_own) == g_own_data))
 
-#ifdef U_STABILIZE_LEFT
 //@FUNC
 void stabilize_left(struct deque *self, struct pair *lrs_ref)
-/* lrs is a word this thread read from (or installed in) the anchor: status lpush */
-__CPROVER_requires(self == &g_q && S_OK(g_q.anchor_) && A_OK(*lrs_ref) && lrs_ref->ltag == lpush && PEQ(*lrs_ref, g_obs))
-__CPROVER_requires(!lin && g_steps == 0 && g_own == NULL)
+__CPROVER_requires(STAB_PRE && lrs_ref->ltag == lpush)
 /* at most one anchor step, and it is exactly (l, r, lpush, t) -> (l, r, stable, t+1) for the lrs passed in (no step
- * if the anchor changed meanwhile); the stub has checked that the back link was in place at that moment */
-__CPROVER_ensures(!lin && g_steps <= 1)
-__CPROVER_ensures(g_steps == 1 ==> (PEQ(g_step_old, __CPROVER_old(*lrs_ref)) && T_STAB(g_step_old, g_step_new) && g_step_old.ltag == lpush))
+ * if the anchor changed meanwhile); the CAS stub has checked that the back link was in place at that moment */
+__CPROVER_ensures(g_nsteps - __CPROVER_old(g_nsteps) <= 1u)
+__CPROVER_ensures(g_nsteps != __CPROVER_old(g_nsteps) ==> (PEQ(g_step_old, __CPROVER_old(*lrs_ref)) && T_STAB(g_step_old, g_step_new) && g_step_old.ltag == lpush))
+/* frame: the representation invariant and the caller's private node are preserved */
+__CPROVER_ensures(S_OK(g_q.anchor_) && (g_own == NULL || NOREF(g_q.anchor_, g_own)))
+__CPROVER_ensures(OWN_INTACT)
 __CPROVER_assigns(STAB_ASSIGNS)
 //@LIFT stabilize_left
-#else
-void stabilize_left(struct deque *self, struct pair *lrs_ref)
-//@LIFT stabilize_left
-#endif
 
-#ifdef U_STABILIZE_RIGHT
 //@FUNC
 void stabilize_right(struct deque *self, struct pair *lrs_ref)
-__CPROVER_requires(self == &g_q && S_OK(g_q.anchor_) && A_OK(*lrs_ref) && lrs_ref->ltag == rpush && PEQ(*lrs_ref, g_obs))
-__CPROVER_requires(!lin && g_steps == 0 && g_own == NULL)
-__CPROVER_ensures(!lin && g_steps <= 1)
-__CPROVER_ensures(g_steps == 1 ==> (PEQ(g_step_old, __CPROVER_old(*lrs_ref)) && T_STAB(g_step_old, g_step_new) && g_step_old.ltag == rpush))
+__CPROVER_requires(STAB_PRE && lrs_ref->ltag == rpush)
+__CPROVER_ensures(g_nsteps - __CPROVER_old(g_nsteps) <= 1u)
+__CPROVER_ensures(g_nsteps != __CPROVER_old(g_nsteps) ==> (PEQ(g_step_old, __CPROVER_old(*lrs_ref)) && T_STAB(g_step_old, g_step_new) && g_step_old.ltag == rpush))
+__CPROVER_ensures(S_OK(g_q.anchor_) && (g_own == NULL || NOREF(g_q.anchor_, g_own)))
+__CPROVER_ensures(OWN_INTACT)
 __CPROVER_assigns(STAB_ASSIGNS)
 //@LIFT stabilize_right
-#else
-void stabilize_right(struct deque *self, struct pair *lrs_ref)
-//@LIFT stabilize_right
-#endif
 
-#ifdef U_STABILIZE
 //@FUNC
 void stabilize(struct deque *self, struct pair *lrs_ref)
 /* called only with an unstable word */
-__CPROVER_requires(self == &g_q && S_OK(g_q.anchor_) && A_OK(*lrs_ref) && lrs_ref->ltag != stable && PEQ(*lrs_ref, g_obs))
-__CPROVER_requires(!lin && g_steps == 0 && g_own == NULL)
-__CPROVER_ensures(!lin && g_steps <= 1)
-__CPROVER_ensures(g_steps == 1 ==> (PEQ(g_step_old, __CPROVER_old(*lrs_ref)) && T_STAB(g_step_old, g_step_new)))
+__CPROVER_requires(STAB_PRE && lrs_ref->ltag != stable)
+__CPROVER_ensures(g_nsteps - __CPROVER_old(g_nsteps) <= 1u)
+__CPROVER_ensures(g_nsteps != __CPROVER_old(g_nsteps) ==> (PEQ(g_step_old, __CPROVER_old(*lrs_ref)) && T_STAB(g_step_old, g_step_new)))
+__CPROVER_ensures(S_OK(g_q.anchor_) && (g_own == NULL || NOREF(g_q.anchor_, g_own)))
+__CPROVER_ensures(OWN_INTACT)
 __CPROVER_assigns(STAB_ASSIGNS)
 //@LIFT stabilize
-#else
-void stabilize(struct deque *self, struct pair *lrs_ref)
-//@LIFT stabilize
-#endif
 #undef lrs
 
 #if defined(U_POP_LEFT) || defined(U_SEQ)
-#ifdef U_POP_LEFT
 //@FUNC
-#endif
 bool pop_left(struct deque *self, T *r)
 __CPROVER_requires(self == &g_q && S_OK(g_q.anchor_) && !lin && g_retired == 0 && g_own == NULL)
 /* an element is taken ONLY by one successful step from a STABLE anchor: the last element (l == r) -> (NULL, NULL),
@@ -315,27 +308,23 @@ __CPROVER_ensures(__CPROVER_return_value ==> (lin && lin_old.ltag == stable && (
 __CPROVER_ensures(__CPROVER_return_value ==> (*r == g_lin_ldata && g_retired == 1 && g_retired_node == lin_old.left))
 /* false only after reading an empty anchor, without having taken a step or retired anything */
 __CPROVER_ensures(!__CPROVER_return_value ==> (!lin && g_retired == 0 && g_last_read.left == NULL))
-__CPROVER_assigns(*r, g_q.anchor_, POOL_OBJECTS, lin, lin_old, lin_new, g_lin_lr, g_lin_rl, g_lin_nr, g_lin_nl, g_lin_ldata, g_lin_rdata, g_steps, g_step_old, g_step_new, g_last_read, g_obs, g_inward_seen, g_validated, g_own, g_retired, g_retired_node)
+__CPROVER_assigns(*r, g_q.anchor_, POOL_OBJECTS, lin, lin_old, lin_new, g_lin_lr, g_lin_rl, g_lin_nr, g_lin_nl, g_lin_ldata, g_lin_rdata, g_nsteps, g_step_old, g_step_new, g_last_read, g_obs, g_inward_seen, g_validated, g_own, g_retired, g_retired_node)
 //@LIFT pop_left
 #endif
 
 #if defined(U_POP_RIGHT) || defined(U_SEQ)
-#ifdef U_POP_RIGHT
 //@FUNC
-#endif
 bool pop_right(struct deque *self, T *r)
 __CPROVER_requires(self == &g_q && S_OK(g_q.anchor_) && !lin && g_retired == 0 && g_own == NULL)
 __CPROVER_ensures(__CPROVER_return_value ==> (lin && lin_old.ltag == stable && (T_POP_LAST(lin_old, lin_new) || T_POP_RIGHT(lin_old, lin_new, g_lin_rl))))
 __CPROVER_ensures(__CPROVER_return_value ==> (*r == g_lin_rdata && g_retired == 1 && g_retired_node == lin_old.right))
 __CPROVER_ensures(!__CPROVER_return_value ==> (!lin && g_retired == 0 && g_last_read.right == NULL))
-__CPROVER_assigns(*r, g_q.anchor_, POOL_OBJECTS, lin, lin_old, lin_new, g_lin_lr, g_lin_rl, g_lin_nr, g_lin_nl, g_lin_ldata, g_lin_rdata, g_steps, g_step_old, g_step_new, g_last_read, g_obs, g_inward_seen, g_validated, g_own, g_retired, g_retired_node)
+__CPROVER_assigns(*r, g_q.anchor_, POOL_OBJECTS, lin, lin_old, lin_new, g_lin_lr, g_lin_rl, g_lin_nr, g_lin_nl, g_lin_ldata, g_lin_rdata, g_nsteps, g_step_old, g_step_new, g_last_read, g_obs, g_inward_seen, g_validated, g_own, g_retired, g_retired_node)
 //@LIFT pop_right
 #endif
 
 #if defined(U_PUSH_LEFT) || defined(U_SEQ)
-#ifdef U_PUSH_LEFT
 //@FUNC
-#endif
 bool push_left(struct deque *self, T data)
 __CPROVER_requires(self == &g_q && S_OK(g_q.anchor_) && !lin && g_own == NULL && g_allocs == 0)
 /* the new node n (carrying `data`) is published by exactly one step from a STABLE anchor: empty -> (n, n, stable),
@@ -343,27 +332,23 @@ __CPROVER_requires(self == &g_q && S_OK(g_q.anchor_) && !lin && g_own == NULL &&
 __CPROVER_ensures(__CPROVER_return_value ==> (lin && g_allocs == 1 && lin_old.ltag == stable && lin_new.left != NULL && DATA_OF(lin_new.left) == data))
 __CPROVER_ensures(__CPROVER_return_value ==> (T_PUSH_EMPTY(lin_old, lin_new, lin_new.left) || (T_PUSH_LEFT(lin_old, lin_new, lin_new.left) && g_lin_nr == lin_old.left)))
 __CPROVER_ensures(!__CPROVER_return_value ==> !lin)
-__CPROVER_assigns(g_q.anchor_, POOL_OBJECTS, lin, lin_old, lin_new, g_lin_lr, g_lin_rl, g_lin_nr, g_lin_nl, g_lin_ldata, g_lin_rdata, g_steps, g_step_old, g_step_new, g_last_read, g_obs, g_inward_seen, g_validated, g_own, g_own_data, g_allocs)
+__CPROVER_assigns(g_q.anchor_, POOL_OBJECTS, lin, lin_old, lin_new, g_lin_lr, g_lin_rl, g_lin_nr, g_lin_nl, g_lin_ldata, g_lin_rdata, g_nsteps, g_step_old, g_step_new, g_last_read, g_obs, g_inward_seen, g_validated, g_own, g_own_data, g_own_ll, g_own_lr, g_allocs)
 //@LIFT push_left
 #endif
 
 #if defined(U_PUSH_RIGHT) || defined(U_SEQ)
-#ifdef U_PUSH_RIGHT
 //@FUNC
-#endif
 bool push_right(struct deque *self, T data)
 __CPROVER_requires(self == &g_q && S_OK(g_q.anchor_) && !lin && g_own == NULL && g_allocs == 0)
 __CPROVER_ensures(__CPROVER_return_value ==> (lin && g_allocs == 1 && lin_old.ltag == stable && lin_new.right != NULL && DATA_OF(lin_new.right) == data))
 __CPROVER_ensures(__CPROVER_return_value ==> (T_PUSH_EMPTY(lin_old, lin_new, lin_new.right) || (T_PUSH_RIGHT(lin_old, lin_new, lin_new.right) && g_lin_nl == lin_old.right)))
 __CPROVER_ensures(!__CPROVER_return_value ==> !lin)
-__CPROVER_assigns(g_q.anchor_, POOL_OBJECTS, lin, lin_old, lin_new, g_lin_lr, g_lin_rl, g_lin_nr, g_lin_nl, g_lin_ldata, g_lin_rdata, g_steps, g_step_old, g_step_new, g_last_read, g_obs, g_inward_seen, g_validated, g_own, g_own_data, g_allocs)
+__CPROVER_assigns(g_q.anchor_, POOL_OBJECTS, lin, lin_old, lin_new, g_lin_lr, g_lin_rl, g_lin_nr, g_lin_nl, g_lin_ldata, g_lin_rdata, g_nsteps, g_step_old, g_step_new, g_last_read, g_obs, g_inward_seen, g_validated, g_own, g_own_data, g_own_ll, g_own_lr, g_allocs)
 //@LIFT push_right
 #endif
 
 #if defined(U_EMPTY) || defined(U_SEQ)
-#ifdef U_EMPTY
 //@FUNC
-#endif
 bool empty(struct deque *self)
 __CPROVER_requires(self == &g_q && S_OK(g_q.anchor_))
 __CPROVER_ensures(__CPROVER_return_value == (g_last_read.left == NULL))
@@ -374,8 +359,8 @@ __CPROVER_assigns(g_q.anchor_, POOL_OBJECTS, g_last_read, g_obs, g_validated)
 static void init_ghosts(void)
 {
   lin = false; lin_old = mk_pair(NULL, NULL, 0, 0); lin_new = lin_old; g_lin_lr = NULL; g_lin_rl = NULL; g_lin_nr = NULL; g_lin_nl = NULL; g_lin_ldata = 0; g_lin_rdata = 0;
-  g_steps = 0; g_step_old = lin_old; g_step_new = lin_old; g_last_read = lin_old; g_inward_seen = NULL; g_validated = false;
-  g_own = NULL; g_own_data = 0; g_allocs = 0; g_retired = 0; g_retired_node = NULL; g_quiescent = false;
+  g_nsteps = 0; g_step_old = lin_old; g_step_new = lin_old; g_last_read = lin_old; g_inward_seen = NULL; g_validated = false;
+  g_own = NULL; g_own_data = 0; g_own_ll = NULL; g_own_lr = NULL; g_allocs = 0; g_retired = 0; g_retired_node = NULL; g_quiescent = false;
 }
 
 #ifndef U_SEQ
@@ -416,7 +401,7 @@ void harness(void)
 #else
   stabilize(&g_q, &w);
 #endif
-  if (g_steps == 1) VX_REACH("stabilized"); else VX_REACH("no_anchor_step");
+  if (g_nsteps == 1) VX_REACH("stabilized"); else VX_REACH("no_anchor_step");
 #endif
 #ifdef U_EMPTY
   if (empty(&g_q)) VX_REACH("is_empty"); else VX_REACH("not_empty");
